@@ -3,7 +3,7 @@
    the laws are hypotheses of each theorem; C18_instance_* show that the executed instance
    (Normal natural parameters over Qc) satisfies them. *)
 From Coq Require Import ZArith QArith Qcanon List Bool Arith Permutation.
-From PAFC18 Require Import Model Proofs Proofs2 Witness.
+From PAFC18 Require Import Model Proofs Proofs2 Machine Witness.
 Import ListNotations.
 Local Open Scope nat_scope.
 
@@ -340,3 +340,51 @@ Print Assumptions C18_stale_update_not_exact.
 Print Assumptions C18_init_cavity_current.
 Print Assumptions C18_visit_exact.
 Print Assumptions C18_previous.
+
+(* ---- objects used twice (Machine.v) ---- *)
+(* a FactorHistory whose accessor f is memoised under ANY policy (key, keq) that is sound along an append-only
+   history: after every interleaving of appends and reads, each read returns what a fresh object holding the
+   same entries returns -- the answer depends on the current history only, not on earlier reads *)
+Theorem C18_accessor_history_independent :
+  forall (E A : Type) (f : list E -> A) (K : Type) (key : list E -> K) (keq : K -> K -> bool),
+    sound_policy E A f K key keq ->
+    forall ops : list (op E), run_ops E A f K key keq (fresh_obj E A K) ops = ref_ops E A f [] ops.
+Proof. exact accessor_history_independent. Qed.
+(* a memo keyed on the number of entries is sound for every accessor; so is no memo at all (the code as it stands) *)
+Theorem C18_accessor_length_key_sound :
+  forall (E A : Type) (f : list E -> A) (ops : list (op E)),
+    run_ops E A f nat (@length E) Nat.eqb (fresh_obj E A nat) ops = ref_ops E A f [] ops.
+Proof. exact accessor_length_key. Qed.
+Theorem C18_accessor_no_memo_sound :
+  forall (E A : Type) (f : list E -> A), sound_policy E A f unit (fun _ => tt) (fun _ _ => false).
+Proof. exact never_hit_sound. Qed.
+(* cached_property (a key that never changes) on latest_successful / latest_result: refuted *)
+Theorem C18_accessor_cached_property_refuted :
+  exists ops : list (op (hentry N2)),
+    run_ops (hentry N2) (option nat) (latest_successful N2) unit (fun _ => tt) (fun _ _ => true)
+            (fresh_obj _ _ _) ops
+    <> ref_ops (hentry N2) (option nat) (latest_successful N2) [] ops.
+Proof. exact cached_property_refuted. Qed.
+Theorem C18_accessor_cached_result_refuted :
+  exists ops : list (op (hentry N2)),
+    run_ops (hentry N2) (option (option Z)) (latest_result N2 false) unit (fun _ => tt) (fun _ _ => true)
+            (fresh_obj _ _ _) ops
+    <> ref_ops (hentry N2) (option (option Z)) (latest_result N2 false) [] ops.
+Proof. exact cached_result_refuted. Qed.
+(* one EPOptimiser used twice: run(a) then run(b) on the returned approximation with the same history is one
+   run of a + b sweeps (no callback stop), for every graph, state, damping, scripts and visiting order *)
+Theorem C18_run_twice_is_one_run :
+  forall (G : Type) (gadd : G -> G -> G) (gopp : G -> G) (gscale : Qc -> G -> G) (gvalid : G -> bool)
+         (a b : nat) (dl : delta) (sc : list (list (outcome G))) (order : list nat)
+         (st : state G) (log : list (nat * hentry G)),
+    run G gadd gopp gscale gvalid (a + b) dl sc None order st log =
+    run G gadd gopp gscale gvalid b dl sc None order
+        (fst (run G gadd gopp gscale gvalid a dl sc None order st log))
+        (snd (run G gadd gopp gscale gvalid a dl sc None order st log)).
+Proof. exact run_split. Qed.
+
+Print Assumptions C18_accessor_history_independent.
+Print Assumptions C18_accessor_length_key_sound.
+Print Assumptions C18_accessor_cached_property_refuted.
+Print Assumptions C18_accessor_cached_result_refuted.
+Print Assumptions C18_run_twice_is_one_run.
